@@ -590,6 +590,13 @@ func dialogOps(o *Out, seed uint64, n int, corpus string) {
 	// a long game (more plies than the uint8 counters hold) through the real position handler
 	for i, tries := 0, 0; i < 1+n/300 && tries < 20; tries++ {
 		moves := longGame(rng)
+		if i == 0 {
+			// the first one has the full length the property names (600 plies): every per-game array of the handler is exercised to that bound
+			moves = longGameOf(rng, 600)
+			if len(moves) < 600 {
+				continue
+			}
+		}
 		if len(moves) <= 255 {
 			continue
 		}
